@@ -47,11 +47,14 @@ def make_gen(tag, widths_hi=70):
             pool.sigs.clear()
             params, ins, ows = k.plan(rng, pool)
         nz = [1] if 'div' in k.tags else []          # divisor: never zero, never registered
+        # listener bench: a purely combinational design (no clocked element at all) whose stimuli are applied by a simulator
+        # listener from inside its callback during one clk(n) burst, the listener also reads the outputs
+        listener_bench = (not nz) and rng.random() < 0.07
         nodes = []
         bins = []
         for j, r in enumerate(ins):
             w = pool.inputs[int(r[1:])]['w']
-            if j in nz or rng.random() < 0.25:
+            if j in nz or listener_bench or rng.random() < 0.25:
                 bins.append(r)
             else:
                 nid = len(nodes)
@@ -59,7 +62,7 @@ def make_gen(tag, widths_hi=70):
                 bins.append('n%d.0' % nid)
         # several 1-bit ports of the block fed by one multi-output driver (the bits of one status word, from one splitter)
         onebit = [j for j, r in enumerate(ins) if pool.inputs[int(r[1:])]['w'] == 1 and j not in nz]
-        if len(onebit) >= 2 and rng.random() < 0.3:
+        if len(onebit) >= 2 and not listener_bench and rng.random() < 0.3:
             take = onebit if rng.random() < 0.5 else rng.sample(onebit, rng.randint(2, len(onebit)))
             word = pool.new_input(len(take))[0]
             rid = len(nodes)
@@ -72,7 +75,7 @@ def make_gen(tag, widths_hi=70):
         # re-assigned between cycles (the idiom of the unit tests: c.value = v)
         const_id = None
         cand = [j for j in range(len(ins)) if j not in nz and bins[j][0] == 'i']
-        if cand and rng.random() < 0.12:
+        if cand and not listener_bench and rng.random() < 0.12:
             j = rng.choice(cand)
             w = pool.inputs[int(ins[j][1:])]['w']
             const_id = len(nodes)
@@ -81,7 +84,7 @@ def make_gen(tag, widths_hi=70):
         bid = len(nodes)
         nodes.append({'id': bid, 'kind': k.name, 'p': params, 'ins': bins, 'ow': ows, 'grp': []})
         outs = []
-        for j, w in enumerate(ows):
+        for j, w in enumerate(ows if not listener_bench else []):
             nid = len(nodes)
             nodes.append({'id': nid, 'kind': 'Reg', 'p': {'en': False, 'rs': False, 'rv': 0}, 'ins': ['n%d.%d' % (bid, j)], 'ow': [w], 'grp': []})
             outs.append('n%d.0' % nid)
@@ -121,12 +124,62 @@ def make_gen(tag, widths_hi=70):
             steps.append(step)
         # late: the simulator is fetched when only the first blocks exist; the rest (in whatever sub-block it lives) is
         # instantiated afterwards and the simulator fetched again
+        if listener_bench:
+            return {'design': d, 'order': order, 'perm': None, 'steps': [{'vec': x['vec'], 'faults': []} for x in steps], 'late': None, 'bench': 'listener'}
         return {'design': d, 'order': order, 'perm': rs.sub('perm') if fr.random() < 0.7 else None, 'steps': steps,
                 'late': fr.randint(0, len(order) - 1) if (fr.random() < 0.15 and order) else None}
     return gen
 
 
+class _Bench:
+    """simulator listener that drives the design: at every callback it reads the outputs and applies the next vector"""
+
+    def __init__(self, b, vecs):
+        self.b, self.vecs, self.k, self.seen = b, vecs, 0, []
+
+    def simulatorUpdated(self):
+        self.seen.append({r: self.b.wires[r].get() for r in self.b.desc['outputs']})
+        self.k += 1
+        if self.k < len(self.vecs):
+            self.b.set_inputs(self.vecs[self.k])
+
+
+def run_listener_bench(scn, log, st):
+    d = scn['design']
+    b = netlist.Built(d).build(scn['order'])
+    with quiet():
+        sim = b.hw.getSimulator()
+    vecs = [x['vec'] for x in scn['steps']]
+    if not vecs:
+        return
+    bench = _Bench(b, vecs)
+    sim.addListener(bench)
+    b.set_inputs(vecs[0])
+    with quiet():
+        sim.clk(len(vecs))
+    st.cycles += len(vecs)
+    st.probe('stimuli_from_listener')
+    st.fault('listener_stimulus', len(vecs))
+    ref = netlist.RefModel(d)
+    for k, vec in enumerate(vecs):
+        ref.set_inputs(vec)
+        ref.settle()
+        if k >= len(bench.seen):
+            raise Violation('fn', 'fn:listener-bench:callbacks', k, 'clk(%d) called the listener %d times' % (len(vecs), len(bench.seen)))
+        for r in d['outputs']:
+            exp = ref.vals.get(r)
+            if exp is not None and bench.seen[k][r] != exp:
+                blk = next(n for n in d['nodes'] if n['id'] == d['block'])
+                raise Violation('fn', 'fn:%s:listener-bench' % blk['kind'], k + 1,
+                                'vector %d applied from inside the listener callback: output %s read %#x at the next callback, expected %#x' % (k, r, bench.seen[k][r], exp))
+    seams.check_wire_ranges(b.hw, 'end', len(vecs))
+    st.nontrivial = len(vecs) > 2
+    log.add('bench', h64(repr(bench.seen)))
+
+
 def run(scn, log, st):
+    if scn.get('bench') == 'listener':
+        return run_listener_bench(scn, log, st)
     import copy
     d = copy.deepcopy(scn['design'])      # the run updates block parameters in its private copy
     blk = next(n for n in d['nodes'] if n['id'] == d['block'])
